@@ -185,7 +185,7 @@ func (p *Program) NewExplorerFor(pkgPath, fn string) (*Explorer, error) {
 		"github.com/superfly/litefs/...", "github.com/superfly/litefs", "github.com/superfly/ltx",
 		"errors", "io", "io/fs", "internal/oserror", "context", "bufio", "bytes", "strconv",
 		"encoding/binary", "path/filepath", "sort", "strings", "unicode/utf8", "path", "net/url",
-		"net/textproto", "mime", "encoding/hex", "encoding/base64", "math/rand", "unicode",
+		"net/textproto", "mime", "vendor/golang.org/x/net/http/httpguts", "golang.org/x/net/http/httpguts", "net/http/internal/ascii", "hash/crc64", "encoding/hex", "encoding/base64", "math/rand", "unicode",
 	} {
 		ex.initPkgs[ip] = true
 	}
